@@ -897,6 +897,10 @@ func main() {
 	e.srv.SubscriptionService.VerifSetSubCounter(0xfffffffe)
 	e.runHistory([]op{{kind: "cs", sess: 1}, {kind: "cs", sess: 2}, {kind: "cs", sess: 1}}, 0)
 	e.srv.SubscriptionService.VerifSetSubCounter(0)
+	// … and of the monitored item counter (tables are empty here, so the ids after the wrap are free)
+	e.srv.MonitoredItemService.VerifSetItemCounter(0xfffffffd)
+	e.runHistory([]op{{kind: "cs", sess: 1}, {kind: "ci", sess: 1, a: 1, b: 2}, {kind: "ci", sess: 1, a: 1, b: 3}, {kind: "sm", sess: 2, a: 1, ids: []uint32{0xffffffff, 1, 0}}}, 0)
+	r.Hit("counter-wrap")
 
 	for i := 0; i < o.N(600, 8000) && r.InfraError == ""; i++ {
 		e.runHistory(nil, 8+e.rnd.Intn(16))
